@@ -433,6 +433,15 @@ def call_module(it, fv, args, kwargs):
         if not is_arr(a0):
             return a0
         return npm.np_amax(ctx, a0, name, 1 if name in ('amax', 'max') else -1)
+    if name == 'diff':
+        if not (isinstance(a0, SArr) and a0.ndim == 1) or kwargs or len(args) > 1:
+            raise Unsupported('np.diff form')
+        g = npm.fz(a0)
+        n = a0.n
+        m = (n - 1) if isinstance(n, int) else z3.If(tz(n) >= 1, tz(n) - 1, z3.IntVal(0))
+        if isinstance(m, int) and m < 0:
+            m = 0
+        return npm.new_arr(ctx, (m,), lambda i: scalar_arith('-', g(scalar_arith('+', i, 1)), g(i), fp), a0.dtype, 'diff')
     if name in ('argmax', 'argmin'):
         if not (isinstance(a0, SArr) and a0.ndim == 1) or kwargs or len(args) > 1:
             raise Unsupported('np.%s form' % name)
@@ -797,6 +806,8 @@ def call_pymethod(it, obj, name, args, kwargs):
                                 zor(it.as_bool(x.re), it.as_bool(x.im)), 'bool')
             if tn == 'float' and a.dtype in ('real', 'int'):
                 return npm.map1(ctx, a, lambda x: to_real(x), 'real')
+            if tn == 'int' and a.dtype == 'int':
+                return npm.new_arr(ctx, a.shape, it.frozen_getter(a), 'int', 'copy')
             if tn == 'complex':
                 return npm.map1(ctx, a, to_cx, 'complex')
             raise Unsupported('astype(%r)' % (t,))
